@@ -19,7 +19,7 @@ from .absint import FALSE, NONE, TOP, TRUE, Undecided, exc, heap_key, is_handle,
 from .astutil import FUNC_TYPES, attr_chain, dotted
 from .effects import EffectDomain, exc_info_of, is_generator
 
-CALLABLE_TAGS = ("func", "method", "boundmethod", "bound", "partial", "builtin", "listappend", "attrgetter", "itemgetter", "methodcaller", "classref", "ctorref", "userfn", "setmethod", "decoderfactory", "decodermethod", "strmethod", "dictmethod")
+CALLABLE_TAGS = ("func", "method", "boundmethod", "bound", "partial", "builtin", "listappend", "attrgetter", "itemgetter", "methodcaller", "classref", "ctorref", "userfn", "setmethod", "decoderfactory", "decodermethod", "strmethod", "dictmethod", "supermethod")
 
 
 def is_inst(v):
@@ -239,6 +239,8 @@ class ObjectDomain(EffectDomain):
             return [val(("kwdict", tuple((k, unbox_deep(v, st)) for k, v in items)), st)]
         if attr == "__class__" and is_inst(value):
             return [val(("classref", value[2]), st)]
+        if isinstance(value, tuple) and value[:1] == ("super",) and len(value) == 3:
+            return [val(("supermethod", value[1], attr, value[2]), st)]
         if isinstance(value, tuple) and value[:1] == ("tuple",):
             hits = {tuple(fields) for fields in self._module_namedtuples(fr).values() if attr in fields and len(fields) == len(value) - 1}
             if len(hits) == 1:
@@ -777,6 +779,17 @@ class ObjectDomain(EffectDomain):
                 n_ = st.get("ev.alloc", 0)
                 return [val(obj + (n_,), st.set("ev.alloc", n_ + 1))]
             return [val(obj, st)]
+        if tag == "supermethod":
+            owner, name, inst = fn[1], fn[2], fn[3]
+            receiver = inst[2] if inst is not None else (getattr(self, "root_class", None) or fr.receiver)
+            found = self.classes.resolve_method(receiver, name, after=owner) if receiver is not None else (None, None)
+            f = found[1] if found[0] is not None and not found[0].external and isinstance(found[1], FUNC_TYPES) else None
+            if f is None:
+                return [val(NONE, st)]   # a method of an external base (object, unittest ...): nothing this model follows
+            argvals = self._bind(f, pos, kw, True)
+            if argvals is None:
+                return [exc(("exc", "TypeError"), st)]
+            return self.run_function(interp, f, argvals, st, fr, receiver=receiver, self_value=inst) if inst is not None else self.run_function(interp, f, argvals, st, fr, receiver=receiver)
         if tag == "dictmethod" and not kw:
             cur = st.get(fn[1], None)
             if isinstance(cur, tuple) and cur[:1] == ("kwdict",):
@@ -1179,6 +1192,10 @@ class ObjectDomain(EffectDomain):
                 else:
                     out.append(val(TOP, r.state))
             return out
+        if d == "super" and not call.args and not call.keywords and getattr(fr.func, "_class", None) is not None and hasattr(fr.func, "_module"):
+            owner = self.classes.get(fr.func._module.name, fr.func._class.name)
+            if owner is not None:
+                return [val(("super", owner, fr.instance), st)]   # super() as a value: attribute lookups continue after the current class
         if d == "iter" and len(call.args) == 1 and not call.keywords:
             # iter(<exact sequence>): an iterator object with its own position (a heap object: next() advances it for every holder)
             got = interp._forced(interp.eval(call.args[0], st, fr), fr)
